@@ -65,6 +65,7 @@ impl Crowd {
             backlog,
             thr: *rng.pick(&[2u32, 3]),
             max: *rng.pick(&[3u32, 5]),
+            rcap: 0,
         };
         let n = backlog + rng.range(0, 3) as usize;
         let mut ops = vec![];
